@@ -331,6 +331,19 @@ def session_corpus():
             yield "session-two-datastores", SESSION_DS + [
                 ["create", d1, b, SESSION_EVENTS], qa, qb, qa, ["create", d2, b, SESSION_EVENTS[1:]], ["delete", d1, b],
                 qa, qb, ["delete", d2, b], qb, qa]
+    # nothing a query assigned is there for the next one: variables, RETURN, the query window
+    v = {"class": "value"}
+    for ds in ("main", "A"):
+        k += 1
+        yield "session-namespace", SESSION_DS + [
+            ["query", ds, "leak%d = [1]; RETURN = leak%d;" % (k, k), v], ["query", ds, "RETURN = leak%d;" % k, {"class": "InterpretError"}],
+            ["query", ds, "RETURN = echo(leak%d);" % k, {"class": "InterpretError"}], ["query", ds, "x = 1;", {"class": "ParseError"}],
+            ["query", ds, "RETURN = 1; zz = nope;", {"class": "InterpretError"}], ["query", ds, "y = 2", {"class": "ParseError"}],
+            ["create", ds, "w%d-x" % k, SESSION_EVENTS],
+            ["query", ds, 'STARTTIME = 5; ENDTIME = "never"; nop = 3; RETURN = 1;', v], bq(ds, BUCKET_SHAPES[0], "w%d-x" % k),
+            bq(ds, BUCKET_SHAPES[1], "w%d-x" % k), ["query", ds, "RETURN = nop();", v],
+            ["query", ds, 'true = "s"; RETURN = true;', v], ["query", ds, "RETURN = limit_events([1], true);", v],
+            ["delete", ds, "w%d-x" % k]]
     # a bucket named by two shapes in one text while only one of two buckets exists
     for s1 in BUCKET_SHAPES:
         k += 1
